@@ -907,9 +907,11 @@ func main() {
 	rng := r.Rand
 
 	nGo, nAsm, nZlib, nBig, nRobust, nFunc, nInfl := 40, 70, 30, 4, 1500, 700, 500
+	n64k := 4
 	bigLimits := 30
 	if r.Thorough {
 		nGo, nAsm, nZlib, nBig, nRobust, nFunc, nInfl = 250, 700, 200, 30, 40000, 12000, 8000
+		n64k = 24
 		bigLimits = 120
 	}
 
@@ -1004,6 +1006,48 @@ func main() {
 			sc = &streamCase{sig: fmt.Sprintf("big-zlib|%s|l%d", class, level), enc: goZlib(p, level, 1+g.Intn(4), nil, g), payload: p, zlib: true}
 		}
 		x.runStream(sc, g, bigLimits)
+	}
+
+	// (4b) the 64 KiB boundary of cutSingleBlock: a first Huffman block that expands its input, more than
+	// 65535 payload bytes, limits around 0xFFFF+5 (so that the fallback stored block is capped at 0xFFFF)
+	g = rng.Fork()
+	for i := 0; i < n64k; i++ {
+		size := 65536 + 200 + g.Intn(3000)
+		p := payload(g, []string{"random", "lowentropy"}[i%2], size)
+		if i%2 == 1 { // lowentropy expands under the fixed code when sent as literals only
+			for j := range p {
+				p[j] |= 0x90 // 9-bit literals of the fixed code
+			}
+		}
+		var sc *streamCase
+		switch i % 4 {
+		case 0:
+			sc = &streamCase{sig: "fallback64k|go|l-2", enc: goFlate(p, -2, 1, nil, g), payload: p}
+		case 1:
+			a := newAsm(g)
+			a.fixed(true, tokenizeFrom(p, 0, g, 0))
+			sc = &streamCase{sig: "fallback64k|asm|F", enc: a.finish(), payload: p, blocks: a.blocks}
+		case 2:
+			sc = &streamCase{sig: "fallback64k|zlib|l-2", enc: goZlib(p, -2, 1, nil, g), payload: p, zlib: true}
+		default:
+			a := newAsm(g)
+			k := 40000 + g.Intn(20000)
+			a.fixed(false, tokenizeFrom(p[:k], 0, g, 0))
+			a.fixed(true, tokenizeFrom(p, k, g, 0))
+			sc = &streamCase{sig: "fallback64k|asm|FF", enc: a.finish(), payload: p, blocks: a.blocks}
+		}
+		x.r.Count("stream:fallback64k")
+		extra := 0
+		if sc.zlib {
+			extra = 6
+		}
+		ls := []int{0xFFFF + 3, 0xFFFF + 4, 0xFFFF + 5, 0xFFFF + 6, 0xFFFF + 7, 0xFFFF + 5 + 1 + g.Intn(150), len(sc.enc) - 1 - g.Intn(40), len(sc.enc)}
+		for _, l := range ls {
+			x.cutOnce(sc, l+extra, false)
+		}
+		if !sc.zlib {
+			x.cutOnce(sc, 0xFFFF+6, true)
+		}
 	}
 
 	// (5) the spec decoder against compress/flate: valid, truncated, corrupted, capped, with dictionary
